@@ -1030,7 +1030,9 @@ func (r *Raft) sendAppendEntries(id string, address string, numResponses *int) {
 	r.mu.Lock()
 
 	// Quit if RPC failed, leadership was lost, or the node was removed from the cluster.
-	if !r.isMember(id) || err != nil || r.state != Leader {
+	// A response to a request that was sent in an earlier term of leadership is stale:
+	// it says nothing about the log this node has in its current term.
+	if !r.isMember(id) || err != nil || r.state != Leader || r.currentTerm != request.Term {
 		return
 	}
 
